@@ -70,6 +70,15 @@ class LockedGraphMachine(GraphMachine, LockedMachine):
         A threadsafe machine with graph support.
     """
 
+    # GraphMachine and LockedMachine both customise pickling; make sure both take part
+    def __getstate__(self):
+        state = LockedMachine.__getstate__(self)
+        return {k: v for k, v in state.items() if k not in self._pickle_blacklist}
+
+    def __setstate__(self, state):
+        LockedMachine.__setstate__(self, state)
+        GraphMachine.__setstate__(self, {})
+
     @staticmethod
     def format_references(func):
         if isinstance(func, partial) and func.func.__name__.startswith('_locked_method'):
@@ -89,6 +98,9 @@ class LockedHierarchicalGraphMachine(GraphMachine, LockedHierarchicalMachine):
 
     transition_cls = NestedGraphTransition
     event_cls = NestedEvent
+
+    __getstate__ = LockedGraphMachine.__getstate__
+    __setstate__ = LockedGraphMachine.__setstate__
 
     @staticmethod
     def format_references(func):
